@@ -564,8 +564,8 @@ func (s *vfSim) shutdown() {
 	}()
 	select {
 	case <-done:
-	case <-time.After(30 * time.Second):
-		s.failf("sim.stuck", "closing the node does not return (30 s)")
+	case <-time.After(s.limit(30 * time.Second)):
+		s.failf("sim.stuck", "closing the node does not return (%v)", s.limit(30*time.Second))
 	}
 }
 
